@@ -26,7 +26,8 @@ LEVEL_NOTE = ("proved: offsets of saved objects point at their headers, /W /Inde
 RULE = ("documents of 0-8 pages; per page optional Media/Crop/TrimBox (integral and dyadic-fraction coordinates), rotation, an operation "
         "sequence over a fixed 13-letter alphabet (C08 owns the operator round trip), 0-3 extra dictionary entries; information dictionary "
         "absent / empty / any subset of the six text entries; each document built by the real PdfBuilder, reloaded cached and uncached and "
-        "compared with the input, and its bytes judged by both validators; non-trivial = at least one page; distinct by (pages, info)")
+        "compared with the input, and its bytes judged by both validators; non-trivial = at least one page; distinct by (pages, info)"
+        " documents padded (title length) until the real builder's startxref is exactly 255, 256, 257 and 65535, 65536, 65537 (column widths of the cross-reference stream at powers of 256)")
 CASE_TIMEOUT = 20.0
 OPS = "qQBESfFnhmlMwLTUN"
 INFO_KEYS = ["Title", "Author", "Subject", "Keywords", "Creator", "Producer"]
